@@ -261,14 +261,26 @@ func ccCall(sp *saml2.SAMLServiceProvider, op string, k, n int) (note string) {
 		}
 		doc.Root().CreateAttr("xmlns:app", "urn:example:app")
 		doc.Root().CreateAttr("app:call", tag+strings.Repeat("-", n%37))
-		want, _ := doc.WriteToBytes()
-		if op == "postAuthn" {
-			body, err = sp.BuildAuthBodyPostFromDocument("rs-"+tag, doc)
-		} else {
-			body, err = sp.BuildLogoutResponseBodyPostFromDocument("rs-"+tag, doc)
+		if n%2 == 1 {
+			doc.WriteSettings = etree.WriteSettings{} // a document whose write settings are the caller's own
 		}
+		want, _ := doc.WriteToBytes()
+		post := func() ([]byte, error) {
+			if op == "postAuthn" {
+				return sp.BuildAuthBodyPostFromDocument("rs-"+tag, doc)
+			}
+			return sp.BuildLogoutResponseBodyPostFromDocument("rs-"+tag, doc)
+		}
+		body, err = post()
 		if err != nil {
 			return "body: " + err.Error()
+		}
+		// the same call again, on the same document: the same page, and the document is still what it was
+		if again, err2 := post(); err2 != nil || !bytes.Equal(again, body) {
+			return "the identical call on the same document gives another page"
+		}
+		if after, _ := doc.WriteToBytes(); !bytes.Equal(after, want) {
+			return "the document handed in was modified"
 		}
 		page := html.UnescapeString(string(body))
 		if strings.Count(page, `value="`+base64.StdEncoding.EncodeToString(want)+`"`) != 1 || strings.Count(page, `value="rs-`+tag+`"`) != 1 {
